@@ -1,35 +1,72 @@
-"""C08 — CAMx binary write/read round trip and idempotent rewrite (uamiv family so far)"""
+"""C08 — CAMx binary write/read round trip and idempotent rewrite (uamiv family and slab formats)"""
 import os
 
 import numpy as np
 
 from .. import camx, lib
+from .. import slabfmt as S
 
 ID = 'C08'
 LEAN_MODULE = 'PncProofs.C08'
 LEAN_FILE = 'PncProofs/C08.lean'
 NAMESPACE = 'Props.C08'
-LEAN_CONE = ['PncModel.Words', 'PncModel.Camx.Uamiv', 'PncProofs.WordsLemmas', 'PncProofs.UamivLemmas',
-             'PncProofs.BridgeLemmas', 'PncProofs.C08']
+LEAN_CONE = ['PncModel.Words', 'PncModel.Camx.Uamiv', 'PncModel.Camx.Slab', 'PncProofs.WordsLemmas', 'PncProofs.UamivLemmas',
+             'PncProofs.BridgeLemmas', 'PncProofs.SlabLemmas', 'PncProofs.C13', 'PncProofs.C08']
 LEMMA_FILES = ['PncProofs/BridgeLemmas.lean']
 REQUIRED_THEOREMS = ['roundtrip', 'readers_agree_on_encodings', 'date_roundtrip', 'hours_roundtrip',
-                     'hour_bits_roundtrip']
+                     'hour_bits_roundtrip', 'slab_roundtrip']
 RULE = ('CAMx-convention files (all NAME variants, 1-3 species, nx, ny 1-4, nz 1-3, 1-3 whole-hour steps of 1 or '
         '3 hours starting at any date 1970-2068 and hour, with day/year/leap/century roll-overs over-sampled, any '
         'finite float32 payload incl. denormals and -0, with and without ETFLAG) written by the library (pncgen '
         'format=uamiv), read back (Memmap), re-written and compared byte for byte; the model predicts the bytes '
-        'and the view; non-trivial = two or more of nspec, cells, nz, nt > 1')
+        'and the view; slab formats (one3d, humidity, vertical diffusivity, temperature, height/pressure; 2-4 steps incl. '
+        'midnight and year-end starts): written by the library writer, read back with the Memmap reader, compared with what '
+        'was written (model: Lean encoder + reader model) and re-written byte for byte; '
+        'non-trivial = two or more of nspec, cells, nz, nt > 1')
 ASSUMPTIONS = ['float32 <-> bits and numpy tofile/memmap are trusted',
-               'covers the uamiv family; lateral_boundary, landuse and the meteorological formats are not yet in this check']
+               'covers the uamiv family and the five slab formats; for lateral_boundary the write-back is part of C09; landuse, cloud_rain and wind round trips are not in this check']
 MIN_NONTRIVIAL = {'quick': 30, 'thorough': 300}
 
 
 def gen(rng, tier):
     n = 60 if tier == 'quick' else 2500
-    return [camx.gen_uamiv(rng) for _ in range(n)]
+    out = [camx.gen_uamiv(rng) for _ in range(n)]
+    for _ in range(n // 2):
+        c = S.gen(rng)
+        c['family'] = 'slab'
+        c['vdtype'] = rng.choice(['f', 'f', 'd'])
+        out.append(c)
+    return out
+
+
+def _impl_slab(case):
+    from PseudoNetCDF.pncgen import pncgen
+    p1 = os.path.join(camx.tmpdir(), 'c08s_%d_%d.bin' % (os.getpid(), np.random.randint(1 << 30)))
+    p2 = p1 + '.again'
+    try:
+        b1 = S.write_with_library(case, case['vdtype'])
+        open(p1, 'wb').write(b1)
+        with lib.pnc_warnings():
+            f = S.open_reader(case, p1, 'memmap')
+            v = S.view(f, case)
+            pncgen(f, p2, format=S.FORMATS[case['fmt']][4], verbose=0)
+        b2 = open(p2, 'rb').read()
+        v['hex'] = b1.hex()
+        v['rewrite_same'] = (b1 == b2)
+        return v
+    except lib.HarnessError:
+        raise
+    except Exception as e:
+        return dict(err=type(e).__name__, msg=str(e)[:120])
+    finally:
+        for q in (p1, p2):
+            if os.path.exists(q):
+                os.remove(q)
 
 
 def impl(case):
+    if case.get('family') == 'slab':
+        return _impl_slab(case)
     from PseudoNetCDF.pncgen import pncgen
     from PseudoNetCDF.camxfiles.uamiv.Memmap import uamiv
     try:
@@ -60,6 +97,9 @@ def impl(case):
 
 
 def to_line(case, res):
+    if case.get('family') == 'slab':
+        enc = lib.run_model(['bin slab-enc ' + S.lean_steps(case)])[0]
+        return 'bin slab-mm %s %d %s' % (S.FORMATS[case['fmt']][0], case['nx'] * case['ny'], enc[3:] if enc.startswith('ok ') else '-')
     # the model reads the bytes its own writer model produces
     out = lib.run_model([camx.uamiv_write_line(case)])[0]
     if not out.startswith('ok '):
@@ -68,6 +108,21 @@ def to_line(case, res):
 
 
 def agree(case, out, res):
+    if case.get('family') == 'slab':
+        if 'err' in res:
+            return 'impl raised %s (%s)' % (res['err'], res.get('msg'))
+        enc = lib.run_model(['bin slab-enc ' + S.lean_steps(case)])[0]
+        if enc != 'ok ' + res['hex']:
+            return 'writer bytes differ from the Lean encoder'
+        if not out.startswith('ok '):
+            return 'model ' + out[:40]
+        _, kv = lib.parse_kv('x ' + out[3:])
+        for k in ('nt', 'nz'):
+            if float(kv[k]) != float(res[k]):
+                return '%s model=%s impl=%s' % (k, kv[k], res[k])
+        if kv['vars'] != res['vars'] or kv['tflag'] != res.get('tflag'):
+            return 'read-back view differs from the model'
+        return None
     if 'err' in res:
         return None if out.startswith('err') else 'impl raised %s (%s), model %s' % (res['err'], res.get('msg'), out[:60])
     if not out.startswith('ok '):
@@ -79,7 +134,37 @@ def agree(case, out, res):
     return camx.diff_view(out, res)
 
 
+def _oracle_slab(case, res):
+    if 'err' in res:
+        return 'raised %s %s' % (res['err'], res.get('msg'))
+    if (float(res['nt']), float(res['nz'])) != (float(len(case['flags'])), float(case['nz'])):
+        return 'read back nt,nz = %s,%s, written %d,%d' % (res['nt'], res['nz'], len(case['flags']), case['nz'])
+    kind = S.FORMATS[case['fmt']][0]
+    nz = case['nz']
+    got = dict(x.split('~') for x in res['vars'].split(';'))
+    want = {}
+    if kind == 'one3d':
+        want['UNKNOWN'] = [w for slabs in case['data'] for sl in slabs for w in sl]
+    elif kind == 'temperature':
+        want['SURFTEMP'] = [w for slabs in case['data'] for w in slabs[0]]
+        want['AIRTEMP'] = [w for slabs in case['data'] for sl in slabs[1:] for w in sl]
+    else:
+        want['HGHT'] = [w for slabs in case['data'] for z in range(nz) for w in slabs[2 * z]]
+        want['PRES'] = [w for slabs in case['data'] for z in range(nz) for w in slabs[2 * z + 1]]
+    for k, ws in want.items():
+        if got.get(k) != (camx.hexwords(ws) or '-'):
+            return 'float32 data of %s differ after write/read' % k
+    conv = ['%d:%d' % (d + (2000000 if d < 70000 else 1900000), h * 100) for d, h in case['flags']]
+    if any(h for d, h in case['flags']) and res.get('tflag') != ','.join(conv):
+        return 'time flags %s read back, written %s' % (res.get('tflag'), ','.join(conv))
+    if not res['rewrite_same']:
+        return 're-writing the re-read file changed the bytes'
+    return None
+
+
 def oracle(case, res):
+    if case.get('family') == 'slab':
+        return _oracle_slab(case, res)
     if 'err' in res:
         return 'raised %s %s' % (res['err'], res.get('msg'))
     nspec, nx, ny, nz, nt = len(case['species']), case['nx'], case['ny'], case['nz'], len(case['tflag'])
@@ -111,6 +196,8 @@ def classify(case, failure, model_out):
 
 
 def nontrivial(case, res):
+    if case.get('family') == 'slab':
+        return len({case['nz'], case['nx'] * case['ny'], len(case['flags'])} - {1}) >= 2
     dims = [len(case['species']), case['nx'] * case['ny'], case['nz'], len(case['tflag'])]
     return sum(1 for d in dims if d > 1) >= 2
 
@@ -119,6 +206,9 @@ def distribution(recs):
     d = {}
     for r in recs:
         c = r['case']
+        if c.get('family') == 'slab':
+            d['slab_' + c['fmt']] = d.get('slab_' + c['fmt'], 0) + 1
+            continue
         d['name_' + c['name']] = d.get('name_' + c['name'], 0) + 1
         d['etflag' if c['with_etflag'] else 'tstep'] = d.get('etflag' if c['with_etflag'] else 'tstep', 0) + 1
         ys = {x[0] // 1000 for x in c['tflag']} | {x[0] // 1000 for x in c['etflag']}
